@@ -91,6 +91,7 @@ func fatal(f string, a ...any) {
 type Request struct {
 	Harness string  `json:"harness"`
 	Prefix  []int64 `json:"prefix"`
+	Witness bool    `json:"witness"`
 }
 
 func main() {
@@ -172,7 +173,7 @@ func runPath(ld *loaded, s *Solver, c *Config, req Request) (res *PathResult) {
 	}
 	e := &Engine{prog: ld.prog, pkg: ld.pkg, s: s, globals: map[*ssa.Global]*Loc{}, trace: req.Prefix,
 		res: res, harness: req.Harness, funcs: map[string]bool{}, exts: map[string]bool{}, conc: map[string]int64{},
-		maxSteps: c.MaxSteps, maxEnum: c.MaxEnum, unwind: c.Unwind, noMerge: c.NoMerge, clock: bv(0, 64)}
+		maxSteps: c.MaxSteps, maxEnum: c.MaxEnum, unwind: c.Unwind, noMerge: c.NoMerge, clock: bv(0, 64), wantWitness: req.Witness}
 	curSolver = s
 	q0, d0 := s.queries, s.dur
 	s.push()
@@ -261,6 +262,7 @@ type Summary struct {
 	Errors       []string            `json:"errors"`
 	PerHarness   map[string]*HStat   `json:"per_harness"`
 	Samples      []Obligation        `json:"samples"`
+	Witnesses    []Witness           `json:"witnesses"`
 	Labels       map[string]LabelSum `json:"labels"`
 	Config       map[string]any      `json:"config"`
 }
